@@ -541,12 +541,112 @@ Proof.
     apply existsb_map_false. intros a. apply pkg_null_sub_mig.
 Qed.
 
-Lemma loader_accepts r out : migrate r = MOk out -> load out = LoadOk.
+(* ---- the regular expressions the loader compiles are the v2 file's, value for value ---- *)
+Lemma keq_lower a b : keq a b = true <-> lower a = lower b.
+Proof. unfold keq. apply seqb_eq. Qed.
+
+Lemma assoc_ci_in {A} k (l : list (str * A)) v :
+  assoc_ci k l = Some v -> exists k', In (k', v) l /\ keq k k' = true.
+Proof.
+  induction l as [|[k' v'] t IH]; simpl; [discriminate|].
+  destruct (keq k k') eqn:E.
+  - intros H; injection H as <-. exists k'. auto.
+  - intros H. destruct (IH H) as (k'' & Hin & Hk). exists k''. auto.
+Qed.
+
+Lemma assoc_ci_collapse k l :
+  nodup_ci (map fst l) = true ->
+  assoc_ci k (collapse l) = match assoc_ci k l with Some (Some v) => Some v | _ => None end.
+Proof.
+  unfold nodup_ci. induction l as [|[k' [v|]] t IH]; simpl; intros ND; [reflexivity | |];
+    apply andb_true_iff in ND as [Hk ND'].
+  - destruct (keq k k'); [reflexivity | apply IH; exact ND'].
+  - destruct (keq k k') eqn:E; [|apply IH; exact ND'].
+    destruct (assoc_ci k (collapse t)) eqn:F; [|reflexivity].
+    exfalso. apply assoc_ci_in in F as (k'' & Hin & Hk'').
+    apply negb_true_iff in Hk. apply smem_false in Hk. apply Hk.
+    apply keq_lower in E. apply keq_lower in Hk''. rewrite <- E, Hk''.
+    apply in_map. apply collapse_keys_incl.
+    apply in_map_iff. exists (k'', y). split; [reflexivity | exact Hin].
+Qed.
+
+Lemma flat_map_re_elem l : flat_map re_elem (map YStr l) = l.
+Proof. induction l as [|x t IH]; simpl; [reflexivity | rewrite IH; reflexivity]. Qed.
+
+Ltac ci_lookup :=
+  cbn [assoc_ci]; keq_compute; cbn [app].
+
+Lemma cfg_regexes_mig c tpl : cfg_regexes (mig_config c tpl) = cfg_v2_regexes c.
+Proof.
+  unfold cfg_regexes, mig_config, cfg_v2_regexes.
+  rewrite !assoc_ci_collapse by apply cfg_keys_nodup_ci.
+  unfold cfg_entries. ci_lookup.
+  destruct (v_exclude c) as [[|x l]|], (v_exclude_regex c), (v_include_regex c); cbn;
+    rewrite ?flat_map_re_elem; reflexivity.
+Qed.
+
+Lemma node_regexes_mig c : node_regexes (mig_cfg_node c) = cfg_v2_regexes c.
+Proof. apply cfg_regexes_mig. Qed.
+
+Lemma flat_map_map {A C D} (g : A -> C) (f : C -> list D) l :
+  flat_map f (map g l) = flat_map (fun a => f (g a)) l.
+Proof. induction l as [|x t IH]; simpl; [reflexivity | rewrite IH; reflexivity]. Qed.
+Lemma flat_map_ext' {A D} (f g : A -> list D) l : (forall a, f a = g a) -> flat_map f l = flat_map g l.
+Proof. intros H. induction l as [|x t IH]; simpl; [reflexivity | rewrite H, IH; reflexivity]. Qed.
+
+Lemma iface_regexes_mig ic : iface_regexes (mig_iface ic) = iface_v2_regexes ic.
+Proof.
+  unfold mig_iface, iface_regexes, iface_v2_regexes.
+  rewrite !assoc_ci_collapse by (vm_compute; reflexivity). ci_lookup. f_equal.
+  - destruct (i_config ic) as [c|]; [apply node_regexes_mig | reflexivity].
+  - destruct (i_configs ic) as [|c l] eqn:E; [reflexivity|].
+    rewrite flat_map_map. apply flat_map_ext'. intros a. apply node_regexes_mig.
+Qed.
+
+Lemma pkg_regexes_mig pc : pkg_regexes (mig_pkg pc) = pkg_v2_regexes pc.
+Proof.
+  unfold mig_pkg, pkg_regexes, pkg_v2_regexes.
+  rewrite !assoc_ci_collapse by (vm_compute; reflexivity). ci_lookup. f_equal.
+  - destruct (p_config pc) as [c|]; [apply node_regexes_mig | reflexivity].
+  - destruct (p_ifaces pc) as [|e l] eqn:E; [reflexivity|].
+    rewrite flat_map_map. apply flat_map_ext'. intros a. apply iface_regexes_mig.
+Qed.
+
+Lemma root_entries_nodup_ci r :
+  nodup_ci (map fst (cfg_entries (r_top r) (Some testify) ++ [(kpackages, Some (pkgs_node r))])) = true.
+Proof. vm_compute. reflexivity. Qed.
+
+Lemma tree_regexes_mig r : tree_regexes (mig_root r) = v2_regexes r.
+Proof.
+  unfold mig_root, tree_regexes, v2_regexes. fold (pkgs_node r). rewrite mig_root_entries.
+  unfold cfg_regexes, cfg_v2_regexes.
+  rewrite !assoc_ci_collapse by apply root_entries_nodup_ci.
+  unfold cfg_entries. cbn [app]. ci_lookup. unfold pkgs_node.
+  rewrite flat_map_map.
+  rewrite (flat_map_ext' (fun a => pkg_regexes (snd (fst a, mig_pkg (snd a)))) (fun e => pkg_v2_regexes (snd e)))
+    by (intros a; apply pkg_regexes_mig).
+  destruct (v_exclude (r_top r)) as [[|x l]|], (v_exclude_regex (r_top r)), (v_include_regex (r_top r)); cbn;
+    rewrite ?flat_map_re_elem; reflexivity.
+Qed.
+
+(* the loader accepts the migrated file iff every regex value of the v2 file compiles *)
+Lemma loader_verdict re_ok r out :
+  migrate r = MOk out ->
+  load re_ok out = if forallb re_ok (v2_regexes r) then LoadOk else LoadErr.
 Proof.
   intros Hm. apply migrate_ok in Hm as [-> _].
   unfold load, load_with. unfold mig_root at 1. cbn [andb].
-  rewrite check_root_mig. reflexivity.
+  rewrite check_root_mig, tree_regexes_mig. cbn [negb].
+  destruct (forallb re_ok (v2_regexes r)); reflexivity.
 Qed.
+
+Lemma loader_accepts re_ok r out :
+  migrate r = MOk out -> forallb re_ok (v2_regexes r) = true -> load re_ok out = LoadOk.
+Proof. intros Hm H. rewrite (loader_verdict re_ok r out Hm), H. reflexivity. Qed.
+
+Lemma invalid_regex_rejected re_ok r out :
+  migrate r = MOk out -> forallb re_ok (v2_regexes r) = false -> load re_ok out = LoadErr.
+Proof. intros Hm H. rewrite (loader_verdict re_ok r out Hm), H. reflexivity. Qed.
 
 (* ------------------------------------------------------------------ leaves *)
 Fixpoint flat_entries (m : list (str * yv)) : list (path * yv) :=
